@@ -12,14 +12,25 @@
      addressed element or component (hypotheses each shown necessary by a proved counterexample: the value does not
      end in the separator it would be split at; the path still resolves after the write, which holds when the element
      is not one that segment matching reads — position >= 4).
-   Not proved: add_segment / add_loop / add_node placement in map order, delete_segment, the add_* instances of copy
-   independence.  The check runs random API scripts on model and implementation and applies the laws to the
-   implementation. *)
+   - placement (Proofs/C10_place.v): after an Ok add_segment / add_loop / add_node the live children of the parent,
+     read as (map position, object), are exactly insert_by_pos of the old ones and the new node — after the last
+     live sibling whose position is <= the new one's, FIRST when there is none (a defect found while proving this and
+     fixed in /repo: the node used to go last) — so children in map order stay in map order; the heap changes by the
+     allocation and the parent's list only; the forest invariant is kept;
+   - iteration (C10_place_iter.v): the parent's iterate_segments after the add is the old iteration with the new
+     node's items spliced in at that place, each node exactly once (C10_add_segment_once);
+   - delete (C10_place_del.v): delete() tombstones exactly the node, leaves every other object untouched, is
+     idempotent, and every iteration / select / count / exists / first that completed before returns the same
+     minus the deleted subtree, in the same order (C10_delete_laws); delete_segment likewise.
+   Not proved: get_value / set_value after add or delete, traces that end in an exception for the delete laws, the
+   add_* instances of copy independence.  add_node keeps the forest only for a detached node that is not an ancestor
+   (the code does not check: proved counterexample ex_add_node_attached_twice).  The check runs random API scripts
+   on model and implementation and applies the laws to the implementation. *)
 From Coq Require Import String.
 From PX.Lib Require Import Base PyStr.
 From PX.Model Require Import Path Segment MapLoad MapTree Walker Context.
-From PX.Spec Require Import C10_spec.
-From PX.Proofs Require Import C10_tree.
+From PX.Spec Require Import C10_spec C10_place_spec.
+From PX.Proofs Require Import C10_tree C10_place C10_place_iter C10_place_del.
 
 Theorem C10_copy_is_fresh :
   forall h h' o c, copy_node o h = (h', Ok c) ->
@@ -77,3 +88,69 @@ Theorem C10_set_then_get :
     node_get_value h' self p = Ok (Some v).
 Proof. exact set_then_get_from_04. Qed.
 Print Assumptions C10_set_then_get.
+
+(* ---- placement in map order ---- *)
+Theorem C10_add_segment_placement :
+  forall h h' p a n, forest h -> add_segment p a h = (h', Ok n) ->
+  exists pos olds,
+    live_children h p = Ok olds /\
+    live_children h' p = Ok (insert_by_pos olds (pos, n)) /\
+    (pos_sorted olds ->
+       exists before after,
+         olds = before ++ after /\
+         live_children h' p = Ok (before ++ (pos, n) :: after) /\
+         Forall (fun s => (fst s <= pos)%Z) before /\ Forall (fun s => (pos < fst s)%Z) after /\
+         pos_sorted (before ++ (pos, n) :: after)).
+Proof. exact add_segment_map_order. Qed.
+Print Assumptions C10_add_segment_placement.
+
+(* the exact heap after the add: one object allocated, the parent's list replaced, nothing else; invariant kept *)
+Theorem C10_add_segment_heap :
+  forall h h' p a n, forest h -> add_segment p a h = (h', Ok n) ->
+  exists me mn x sm pos olds,
+    nth_error h p = Some me /\ o_class me = CLoop /\ o_map me = Some mn /\
+    get_segment h p a = Ok x /\ mn_child_node false mn x = Ok (Some sm) /\ mn_pos sm = Ok pos /\
+    live_children h p = Ok olds /\
+    n = length h /\
+    h' = set_nth (h ++ [new_seg (Some sm) x (RObj p) [] []]) p
+                 (upd_children me (map snd (insert_by_pos olds (pos, n)))) /\
+    live_children h' p = Ok (insert_by_pos olds (pos, n)) /\
+    forest h'.
+Proof. exact add_segment_placement. Qed.
+Print Assumptions C10_add_segment_heap.
+
+(* the list-level law: a sorted sibling list stays sorted, the new node after equal positions *)
+Theorem C10_insert_by_pos_sorted :
+  forall (A : Type) (xs : list (Z * A)) v, pos_sorted xs ->
+  exists before after,
+    xs = before ++ after /\ insert_by_pos xs v = before ++ v :: after /\
+    Forall (fun s => (fst s <= fst v)%Z) before /\ Forall (fun s => (fst v < fst s)%Z) after /\
+    pos_sorted (insert_by_pos xs v).
+Proof. intros A. exact (@insert_by_pos_sorted A). Qed.
+Print Assumptions C10_insert_by_pos_sorted.
+
+(* ---- exactly once in iteration ---- *)
+Theorem C10_add_segment_once :
+  forall h h' p a n items,
+  forest h -> add_segment p a h = (h', Ok n) -> node_iterate_segments h' p = (items, None) ->
+  exists l1 l2 it,
+    node_iterate_segments h p = (l1 ++ l2, None) /\ items = l1 ++ it :: l2 /\ it_node it = n /\
+    NoDup (map it_node items) /\ ~ In n (map it_node (l1 ++ l2)).
+Proof. exact add_segment_once. Qed.
+Print Assumptions C10_add_segment_once.
+
+(* ---- delete ---- *)
+Theorem C10_delete_laws :
+  forall h h' x, forest h -> node_delete x h = (h', Ok tt) ->
+  forest h' /\ length h' = length h /\ (forall o, o <> x -> nth_error h' o = nth_error h o) /\
+  node_delete x h' = (h', Ok tt) /\
+  (forall p l, p <> x -> live_ids h p = Ok l -> live_ids h' p = Ok (remove_one (Nat.eqb x) l)) /\
+  (forall q xs, in_subtree h x q = false -> node_iterate_segments h q = (xs, None) ->
+     node_iterate_segments h' q = (filter (fun it => negb (in_subtree h x (it_node it))) xs, None)) /\
+  (forall q s xs, (forall y, up_chain h q y -> in_subtree h x y = false) -> g_all (node_select h q s) = Ok xs ->
+     let xs' := filter (fun o => negb (in_subtree h x o)) xs in
+     g_all (node_select h' q s) = Ok xs' /\
+     node_count h q s = Ok (length xs) /\ node_count h' q s = Ok (length xs') /\
+     node_exists h' q s = Ok (negb (length xs' =? 0)) /\ node_first h' q s = Ok (hd_error xs')).
+Proof. exact node_delete_laws. Qed.
+Print Assumptions C10_delete_laws.
